@@ -121,6 +121,24 @@ def run(ck, tier):
         ck.ob('R3', rf.qn, 'receive-loop table equals %s' % REFERENCE, not rdiff, detail='receive-differs ' + '; '.join(rdiff)[:300], loc=cx.floc(rf),
               message='%s receive loop differs from %s: %s' % (fe[0], REFERENCE, rdiff))
     ck.floor('R1', n, 6, 'front-ends compared')
+    # a front-end whose execute() receives the peer address as extra arguments forwards them to every send (the stream variant of
+    # the same class passes a placeholder, the datagram variant needs the address to answer at all)
+    for fe in FRONTENDS:
+        cls_ = cx.idx.cls(fe[1])
+        ex_ = cx.method(cls_, fe[2])
+        va = ex_.node.args.vararg
+        if va is None:
+            continue
+        for k_ in cx.idx.mro(cls_):
+            for m_ in k_.methods.values():
+                if m_.name == fe[3]:
+                    continue
+                for c_ in ast.walk(m_.node):
+                    if isinstance(c_, ast.Call) and isinstance(c_.func, ast.Attribute) and U(c_.func.value) == 'self' and c_.func.attr == fe[3]:
+                        fwd = any(isinstance(a_, ast.Starred) for a_ in c_.args) or len(c_.args) >= 2
+                        ck.ob('R1', m_.qn, 'send is called with the peer address execute received', fwd, detail='send-without-peer-address', loc=cx.floc(m_, c_),
+                              message='%s calls self.%s(%s) without the peer address: on the datagram variant the reply cannot be sent, the other '
+                                      'front-ends answer the same request' % (m_.qn, fe[3], ', '.join(U(a_) for a_ in c_.args)))
     ck.guard(r5_no_reset_on_clean_iteration, ck, cx)
     ck.rule('R6', 'datagram front-ends hand the framer one datagram at a time (shared with C09 R8)')
     from .c09 import r8_one_datagram_per_framer_call
